@@ -79,7 +79,7 @@ pub fn check(s: &Scenario) -> CheckResult {
                     if l == now {
                         repeated_ts = true;
                     }
-                    if now - l > s.window {
+                    if (now as i128) - (l as i128) > s.window as i128 {
                         window_lt_step = true;
                     }
                 }
@@ -115,18 +115,18 @@ pub fn check(s: &Scenario) -> CheckResult {
                 ewma_first = false;
                 // ---- moving average ----
                 win.push_back((now, *x));
-                while win.front().map(|f| f.0 <= now - s.window).unwrap_or(false) {
+                while win.front().map(|f| (f.0 as i128) <= now as i128 - s.window as i128).unwrap_or(false) {
                     win.pop_front();
                 }
-                let mut start = now - s.window;
+                let mut start: i128 = now as i128 - s.window as i128;
                 let mut sum = R::ZERO;
                 let mut wsum: i64 = 0;
                 for &(t, val) in &win {
-                    let w = t - start;
+                    let w = (t as i128 - start) as i64;
                     assert!(w >= 0, "reference weights are non-negative");
                     wsum += w;
                     sum = sum + R::exact(val) * R::secs(w);
-                    start = t;
+                    start = t as i128;
                 }
                 assert_eq!(wsum, s.window, "reference weights sum to the window");
                 let want = sum / wsecs;
@@ -170,11 +170,16 @@ impl Property for C12 {
     const RULE: &'static str = "random histories of 0..64 events (present sample with non-decreasing timestamp: dt = 0 with probability 0.2 else log-uniform 1 ns..3 h; absent; Err), window log-uniform 1 ns..3 h, smoothing in [0,1] incl. both ends, moderate values; each history is run on the f32 and Quantity variants of both filters. Oracle: time-weighted window average (weights >= 0 summing exactly to the window, asserted on the i64 reference) and prev*(1-L)+new*L with L = 1-(1-s)^dt in f64 with a running f32 error bound (|out - ref| <= 4e), convexity (output within [min,max] of contributing samples +- bound), first sample returned unchanged, f32 == Quantity variant, no panic on any update. Non-trivial = >= 3 samples inside one window with unequal spacing, or a repeated timestamp, or a window shorter than one step; distinct = (event kinds, window, smoothing, end time).";
     type Scenario = Scenario;
     fn strategy(_tier: Tier) -> BoxedStrategy<Scenario> {
-        let dt = prop_oneof![2 => Just(0i64), 8 => gen::log_ns(1, 10_800_000_000_000)].boxed();
+        let dt = prop_oneof![2 => Just(0i64), 6 => gen::log_ns(1, 10_800_000_000_000), 2 => gen::special_ns(1, 10_800_000_000_000)].boxed();
         let smoothing = prop_oneof![1 => Just(0.0f32), 1 => Just(1.0f32), 6 => 0.0f32..=1.0f32, 2 => (1u32..1000).prop_map(|x| x as f32 / 1000.0)];
         let value = |dt: BoxedStrategy<i64>| prop_oneof![3 => ev_strategy([10, 1, 1, 0], dt.clone()), 1 => (Just(2.5f32), dt).prop_map(|(v, dt)| Ev::P(v, dt))];
-        (smoothing, gen::log_ns(1, 10_800_000_000_000), (-3i8..=3, -3i8..=3), t0_strategy(), proptest::collection::vec(value(dt), 0..=64))
-            .prop_map(|(smoothing, window, unit, t0, events)| Scenario { smoothing, window, unit, t0, events })
+        (smoothing, prop_oneof![3 => gen::log_ns(1, 10_800_000_000_000), 1 => gen::special_ns(1, 10_800_000_000_000)], (-3i8..=3, -3i8..=3), t0_strategy(), proptest::collection::vec(value(dt), 0..=64), 0u8..12)
+            .prop_map(|(smoothing, window, unit, t0, events, anchor)| {
+                // anchor 0: the last sample lands 0..2 ns below i64::MAX (timestamps at the very top of the range)
+                let span: i64 = events.iter().map(|e| if let Ev::P(_, dt) = e { *dt } else { 0 }).sum();
+                let t0 = if anchor == 0 { i64::MAX - span - (window % 3) } else { t0 };
+                Scenario { smoothing, window, unit, t0, events }
+            })
             .boxed()
     }
     fn cases(tier: Tier) -> u32 {
@@ -182,6 +187,13 @@ impl Property for C12 {
     }
     fn check(s: &Scenario) -> CheckResult {
         check(s)
+    }
+    fn valid(s: &Scenario) -> bool {
+        (0.0..=1.0).contains(&s.smoothing) && (1..=10_800_000_000_000).contains(&s.window) && dom::grid(s.unit) && s.t0.checked_add(s.events.iter().map(|e| if let Ev::P(_, dt) = e { *dt } else { 0 }).sum::<i64>()).is_some() && s.events.len() <= 64 && s.events.iter().all(|e| match e {
+            Ev::P(v, dt) => dom::moderate(*v) && (0..=10_800_000_000_000).contains(dt),
+            Ev::A => true,
+            Ev::E(c) => *c <= 2,
+        })
     }
     fn extra_coverage() -> std::collections::BTreeMap<String, serde_json::Value> {
         let mut m = std::collections::BTreeMap::new();
